@@ -4,7 +4,7 @@
    stops, shutdown, send_exit_msg, fini; every outcome in {ok, exit(), Exception, propagated error,
    other BaseException}; every propagate policy; loop_exc on/off). *)
 From Coq Require Import ZArith List Bool Lia.
-From OF Require Import Life.Lifecycle Life.Lineage Life.Lifecycle_Counts Life.Lifecycle_Proofs.
+From OF Require Import Life.Lifecycle Life.Lineage Life.Lifecycle_Counts Life.Lifecycle_Proofs Proto.Wire Proto.Sender.
 Import ListNotations.
 Open Scope Z_scope.
 
@@ -94,6 +94,14 @@ Proof.
   rewrite Nat.sub_0_r in *. split; assumption.
 Qed.
 Print Assumptions C08_exit_after.
+
+(* an exit announcement travels upstream as an out-of-band request: the publisher hands every one it reads to the
+   application (Filter.on_exit_msg), whoever sent it - a registered client, one that never asked for a frame (it died
+   in setup()), or one already evicted - and changes nothing else *)
+Theorem C08_announcement_always_handed_up :
+  forall s f o q, q_mid q = MSG_ID_OOB -> on_request s f o q = (s, f, [SOOobUp (q_pay q)], PrTrue).
+Proof. intros s f o q H. unfold on_request. rewrite H. reflexivity. Qed.
+Print Assumptions C08_announcement_always_handed_up.
 
 (* Non-vacuity: process() calls exit() in the second iteration under prop_exit='all': one shutdown, a
    clean announcement, fini, COMPLETE, normal return. *)
